@@ -131,7 +131,16 @@ func runC05(e *core.Env) {
 		// directed scenarios
 		switch i % 16 { // 12 directed scenarios, 4 of 16 cases stay with the generated command
 		case 0:
-			if m, ok := gen.Mutate(r, d); ok && ref.Recognise(m.Text).Verdict == ref.NonConforming {
+			if r.Chance(1, 4) && len(d.Doc.Recs) > 0 {
+				// the only fault sits at the very start or at the very end of the file
+				t2 := r.Pick(" ", "\t", "\u00a0") + strings.TrimLeft(d.Text, " \t\r\n")
+				if r.Bool() {
+					t2 = strings.TrimRight(d.Text, " \t\r\n") + "\n\n" + r.Pick("\f", "\v", "\u00a0", "x") + r.Pick("", "\n")
+				}
+				if ref.Recognise(t2).Verdict == ref.NonConforming {
+					text, special = t2, "unparseable-target"
+				}
+			} else if m, ok := gen.Mutate(r, d); ok && ref.Recognise(m.Text).Verdict == ref.NonConforming {
 				text, special = m.Text, "unparseable-target"
 				if r.Chance(1, 5) {
 					// ... together with arguments for which a command might be tempted to do nothing at all
@@ -287,6 +296,10 @@ func c05Check(e *core.Env, r *core.Rand, idx int64, file, text string, exists bo
 		w["panic"] = res.Panic.Value
 		res.OK, res.Code, res.ErrText = false, 2, "panic: "+res.Panic.Value
 	}
+	if res.OK && strings.HasPrefix(cell, "unparseable-target") {
+		e.Violation("success-on-unparseable-target", fmt.Sprintf("`klog %s` reported success although the target file breaks the specification (klog cannot know what it is editing); the file was rewritten", cmd.String()), w)
+		return
+	}
 	if res.OK {
 		if !after.exists {
 			e.Violation("success-without-file", "the command reported success but the target file does not exist", w)
@@ -425,10 +438,27 @@ func c05ViaDefaultBookmark(e *core.Env, file, text string, cmd MCmd, env MEnv, w
 	return true
 }
 
+// c05Strace observes the real binary under strace. A finding that rests on the behaviour of external processes (strace,
+// the binary) is only reported if it shows again when the observation is repeated: on a heavily loaded machine a process
+// can fail for reasons that have nothing to do with klog (the thorough tier once saw an exit status 1 with empty output
+// that never came back); what does not repeat is counted as inconclusive.
 func c05Strace(e *core.Env, file, text string, exists bool, cmd MCmd, env MEnv, expectOK bool, w map[string]any) {
+	key1, msg1 := c05StraceOnce(e, file, text, exists, cmd, env, expectOK, w)
+	if key1 == "" {
+		return
+	}
+	key2, _ := c05StraceOnce(e, file, text, exists, cmd, env, expectOK, w)
+	if key2 == key1 {
+		e.Violation(key1, msg1, w)
+		return
+	}
+	e.Inconclusive("an observation of the real binary under strace did not repeat (" + key1 + ")")
+}
+
+func c05StraceOnce(e *core.Env, file, text string, exists bool, cmd MCmd, env MEnv, expectOK bool, w map[string]any) (string, string) {
 	if _, err := exec.LookPath("strace"); err != nil {
 		e.Inconclusive("strace not available")
-		return
+		return "", ""
 	}
 	_ = os.Remove(file)
 	if exists {
@@ -450,7 +480,7 @@ func c05Strace(e *core.Env, file, text string, exists bool, cmd MCmd, env MEnv, 
 		code = ee.ExitCode()
 	} else if err != nil {
 		e.Inconclusive("cannot run strace: " + err.Error())
-		return
+		return "", ""
 	}
 	out := string(outb)
 	tb, _ := os.ReadFile(trace)
@@ -476,29 +506,25 @@ func c05Strace(e *core.Env, file, text string, exists bool, cmd MCmd, env MEnv, 
 		e.Count("strace_crashes_counted_as_failures", 1) // status 2: a failure, judged like one below
 	}
 	if (code == 0) != expectOK {
-		e.Violation("binary-outcome-differs", fmt.Sprintf("real binary: `klog %s` exited with %d, in-process outcome was ok=%v\n%s", cmd.String(), code, expectOK, trunc(out, 400)), w)
-		return
+		return "binary-outcome-differs", fmt.Sprintf("real binary: `klog %s` exited with %d, in-process outcome was ok=%v\n%s", cmd.String(), code, expectOK, trunc(out, 400))
 	}
 	if code != 0 && writes > 0 {
 		sort.Strings(destructive)
-		e.Violation("failing-command-opens-target-for-writing", fmt.Sprintf("real binary: `klog %s` exited with %d but touched the target destructively:\n%s", cmd.String(), code, strings.Join(destructive, "\n")), w)
-		return
+		return "failing-command-opens-target-for-writing", fmt.Sprintf("real binary: `klog %s` exited with %d but touched the target destructively:\n%s", cmd.String(), code, strings.Join(destructive, "\n"))
 	}
 	if code == 0 && writes == 0 {
-		e.Violation("successful-command-never-writes", fmt.Sprintf("real binary: `klog %s` exited with 0 but never opened the target for writing", cmd.String()), w)
-		return
+		return "successful-command-never-writes", fmt.Sprintf("real binary: `klog %s` exited with 0 but never opened the target for writing", cmd.String())
 	}
 	if code == 0 {
 		if _, perr := readBack(readFile(file)); perr != "" {
-			e.Violation("success-leaves-invalid-file", "real binary: file does not parse after a successful command: "+perr, w)
-			return
+			return "success-leaves-invalid-file", "real binary: file does not parse after a successful command: "+perr
 		}
 		e.Count("strace_successes_with_write_open", 1)
 	} else {
 		if readFile(file) != text && exists {
-			e.Violation("failed-command-changes-file", "real binary: bytes changed after a failing command", w)
-			return
+			return "failed-command-changes-file", "real binary: bytes changed after a failing command"
 		}
 		e.Count("strace_failures_without_write_open", 1)
 	}
+	return "", ""
 }
